@@ -411,7 +411,11 @@ static CaseSpec genCase1(vh::Rng &rng, uint64_t id, unsigned ncycles, unsigned s
 			}
 			if (sp.kind == RED) {
 				std::vector<unsigned> divs;
-				for (unsigned r : { 1u, 2u, 3u, 4u, 6u, 8u }) if (w % r == 0 && bw % r == 0) divs.push_back(r);
+				// byte-enable groups of the narrow side at most 8 bits: reduceWidth slices the enables with a dynamic offset of
+				// (counter width + group width) bits (utils.h:601, `zext(counter.value(), +w)`), whose elaboration cost is exponential
+				// in that width (a 32-bit group exhausts memory)
+				for (unsigned r : { 1u, 2u, 3u, 4u, 6u, 8u }) if (w % r == 0 && bw % r == 0 && bw / r <= 8) divs.push_back(r);
+				if (divs.empty()) continue;
 				sp.a = rng.pick(divs);
 				if (sp.a == 1 && rng.chance(3, 4) && divs.size() > 1) sp.a = divs[1 + rng.below(divs.size() - 1)];
 				sp.wout = w / sp.a; sp.bwout = bw / sp.a;
@@ -494,8 +498,10 @@ int main(int argc, char **argv)
 			}
 		} catch (const std::exception &e) {
 			std::cout << "case " << id << " exception\n" << "err " << e.what() << "\nend\n";
-			std::cerr << "c16: exception in case " << id << ": " << e.what() << "\n";
-			return 4;
+			std::cerr << "c16: exception in case " << id << ": " << e.what() << " kind=" << cs.skind << " w=" << cs.w0 << "/" << cs.bw0 << " chain=";
+			for (auto &x : cs.stages) std::cerr << kindName[x.kind] << ":" << x.a << ":" << x.b << ",";
+			std::cerr << "\n";
+			// keep going: the `err` block makes the driver report a DIFF for this case
 		}
 	}
 	return 0;
